@@ -75,6 +75,28 @@ let show_can brief = function
   | CV v -> "V " ^ hex_of_n v
   | COob -> "OOB" | CUnmod -> "UNMOD"
 
+(* state of the example listener sessions (X.0 commands reset it) *)
+let x_pdu = ref ([] : Oracle_core.n list)
+let x_q = ref { q_seq = N0; q_items = [] }
+let x_c = ref cstate0
+let x_talker = ref false
+let x_mtt = ref N0
+let show_lstat = function
+  | XHandled -> "HANDLED" | XDropped -> "DROPPED" | XOob _ -> "OOB" | XOverflow n -> "OVERFLOW" ^ hex_of_n n
+  | XDiverged -> "DIVERGED" | XUnmodelled -> "UNMOD"
+
+let show_events evs =
+  SS.concat "" (List.map (function
+    | PGpc (t, c) -> " G:" ^ hex_of_buf t ^ ":" ^ hex_of_n c
+    | PVssPathStr t -> " S:" ^ hex_of_buf t
+    | PVssPathId i -> " I:" ^ hex_of_n i
+    | PVssFloat v -> " F:" ^ hex_of_n v
+    | PAligned b -> if b then " A:1" else " A:0") evs)
+let show_q q =
+  let n = List.length q.q_items in
+  let last = List.fold_left (fun _ x -> Some x) None q.q_items in
+  Printf.sprintf " seq=%s queue=%d last=%s" (hex_of_n q.q_seq) n (match last with None -> "-" | Some b -> hex_of_buf b)
+
 (* ---- ACF-VSS formatting ---- *)
 let nat_of_int i = let rec go k = if k = 0 then O else S (go (k - 1)) in go i
 let elems_of_hex w s =
@@ -168,6 +190,39 @@ let handle (ext : SS.t list -> SS.t option) line =
   | ["CF"; k; b; plen] -> show_can (k = "brief") (m_can_finalize !fbe (k = "brief") (buf_of_hex b) (n_of_hex plen))
   | ["CP"; b; pl; plen] -> show_can false (m_can_set_payload (buf_of_hex b) (buf_of_hex pl) (n_of_hex plen))
   | ["CL"; b] -> show_can false (m_can_payload_length !fbe (buf_of_hex b))
+  (* example programs: XL udp fd datagram stale-fill ; XT udp tscf fd seq udpseq stale-fill frame... (canid:len:flags:data:ts) *)
+  | ["XL"; udp; fd; d; fill] ->
+      let stale = List.init 1500 (fun _ -> n_of_hex fill) in
+      let (st, frames) = m_can_listener !fbe (udp = "1") (fd = "1") (buf_of_hex d) stale in
+      show_lstat st ^ SS.concat "" (List.map (fun f -> " " ^ hex_of_buf f) frames)
+  | ["XH0"; fill] | ["XV0"; fill] -> x_pdu := List.init 1500 (fun _ -> n_of_hex fill); "OK"
+  | ["XH"; udp; d] ->
+      let ((st, evs), pdu) = m_hello_recv !fbe (udp = "1") !x_pdu (buf_of_hex d) in
+      x_pdu := pdu; show_lstat st ^ show_events evs
+  | ["XV"; udp; d] ->
+      let ((st, evs), pdu) = m_vss_recv !fbe (udp = "1") !x_pdu (buf_of_hex d) in
+      x_pdu := pdu; show_lstat st ^ show_events evs
+  | ["XA0"] | ["XC0"] -> x_q := { q_seq = N0; q_items = [] }; "OK"
+  | ["XA"; d] -> let (st, q) = m_aaf_recv !fbe !x_q (buf_of_hex d) in x_q := q; show_lstat st ^ show_q q
+  | ["XC"; d] -> let (st, q) = m_cvf_recv !fbe !x_q (buf_of_hex d) in x_q := q; show_lstat st ^ show_q q
+  | ["XR0"; talker; mtt] -> x_c := cstate0; x_talker := (talker = "1"); x_mtt := n_of_hex mtt; "OK"
+  | ["XR"; d] ->
+      let ((st, evs), c) = m_crf_recv !fbe !x_talker !x_mtt !x_c (buf_of_hex d) in
+      x_c := c;
+      let q = c.c_queue in
+      let first = match q with [] -> N0 | t :: _ -> t in
+      let last = List.fold_left (fun _ t -> t) N0 q in
+      Printf.sprintf "%s%s queue=%d first=%s last=%s prev=%s lookup=%d crfseq=%s aafseq=%s state=%d firstpdu=%d"
+        (show_lstat st) (show_events evs) (List.length q) (hex_of_n first) (hex_of_n last) (hex_of_n c.c_prev)
+        (if c.c_lookup then 1 else 0) (hex_of_n c.c_crfseq) (hex_of_n c.c_aafseq) (if c.c_state then 1 else 0) (if c.c_first then 1 else 0)
+  | "XT" :: udp :: tscf :: fd :: seq :: useq :: fill :: frames ->
+      let pdu = List.init 1500 (fun _ -> n_of_hex fill) in
+      let fr s = match SS.split_on_char ':' s with
+        | [id; len; fl; data; ts] -> ({ cf_canid = n_of_hex id; cf_flen = n_of_hex len; cf_fflags = n_of_hex fl; cf_fdata = buf_of_hex data }, n_of_hex ts)
+        | _ -> failwith "frame" in
+      (match m_talker_packet !fbe (udp = "1") (tscf = "1") (fd = "1") (n_of_hex seq) (n_of_hex useq) (List.map fr frames) pdu with
+       | Ok (sent, _) -> "P " ^ hex_of_buf sent
+       | OOB _ -> "OOB" | Unmodelled -> "UNMOD")
   (* ACF-VSS *)
   | ["VP"; b; n] -> show (m_vss_pad !fbe (buf_of_hex b) (n_of_hex n))
   | ["SVP"; b; n] -> show (s_vss_pad (buf_of_hex b) (n_of_hex n))
